@@ -120,6 +120,25 @@ def modelDim (levels : String → Nat) (fam : List STerm) : Nat :=
   let univ := dedupStr (fam.flatMap (·.cat))
   sumList ((distinctParts (fam.map (·.num))).map (blockDim levels univ fam))
 
+/-! ### numeric atoms with several columns (`poly(v, 2)`: 2 columns, `bs(v, df=3)`: 3)
+
+The interval semantics is about the categorical part only: a numeric block `N` multiplies every
+direction of its down-closure by the columns of its numeric atoms, `Π_{a ∈ N} width a` of them on
+data in general position.  With `width = fun _ => 1` these are `columns` / `totalColumns` /
+`modelDim` above (about which `C03_columns_count` is proved); the width-aware versions are used by
+the driver for the cases that contain such atoms (*test*). -/
+
+def numWidth (width : String → Nat) (num : List String) : Nat := prodList ((dedupStr num).map width)
+
+def columnsW (levels width : String → Nat) (c : CTerm) : Nat := columns levels c * numWidth width c.num
+
+def totalColumnsW (levels width : String → Nat) (coding : List CTerm) : Nat :=
+  sumList (coding.map (columnsW levels width))
+
+def modelDimW (levels width : String → Nat) (fam : List STerm) : Nat :=
+  let univ := dedupStr (fam.flatMap (·.cat))
+  sumList ((distinctParts (fam.map (·.num))).map (fun N => blockDim levels univ fam N * numWidth width N))
+
 /-! ### from the pipeline model to the specification's vocabulary -/
 open FormulaeModel.Encoding
 
